@@ -47,7 +47,7 @@ _INST_CACHE: typing.Dict[type, type] = {}
 def _instance(c: type) -> typing.Any:
     """an instance of (a concrete stand-in subclass of) c without running any constructor"""
     if c not in _INST_CACHE:
-        sub = type(c.__name__ + "Inst", (c,), {})
+        sub = type(c.__name__ + "Inst", (c,), {"__str__": lambda self: type(self).__name__, "__repr__": lambda self: type(self).__name__})
         sub.__abstractmethods__ = frozenset()     # type: ignore
         _INST_CACHE[c] = sub
     return object.__new__(_INST_CACHE[c])
@@ -57,8 +57,10 @@ CLASSES = _all_classes()
 BYNAME = {c.__name__: c for c in CLASSES}
 Q = BYNAME[os.environ.get("C16_Q", "StructureType")]          # queried class
 W = BYNAME[os.environ.get("C16_W", "ServiceType")]            # class looked up first (cache warming)
-NAMES = sorted({c.__name__ for c in chain(Q) + chain(W)})
+NAMES = sorted({c.__name__ for c in chain(Q) + chain(W)} - {"ABC"})      # abc.ABC is walked by the resolver but is never a template name
 NB = len(NAMES)
+AS_USER = os.environ.get("C16_USER", "1") == "1"      # the single template set is the user's directory (else: the built-ins)
+ZSUB = os.environ.get("C16_ZSUB", "1") == "1"         # the same-stem copy lives in a sub-folder sorted after (else: before) the top level
 
 
 class _FakeLoader:
@@ -69,16 +71,15 @@ class _FakeLoader:
         return list(self.names)
 
 
-def _listing(bits: typing.List[int], sub: str) -> typing.List[str]:
-    """bits[i]: 0 absent | 1 NAME.j2 | 2 NAME.j2 and a same-stem copy in a sub-folder | 3 same plus a non-template file.
-    The listing is what jinja loaders return: sorted relative paths."""
+def _listing(bits: typing.List[bool], dup: int, sub: str) -> typing.List[str]:
+    """what jinja loaders return: sorted relative paths.  bits[i]: NAME_i.j2 present; dup: index of ONE name that additionally has a
+    same-stem copy in a sub-folder and a non-template sibling (-1: none)"""
     out: typing.List[str] = []
-    for n, b in zip(NAMES, bits):
-        if b >= 1:
+    for i, (n, b) in enumerate(zip(NAMES, bits)):
+        if b:
             out.append(n + ".j2")
-        if b >= 2:
+        if i == dup:
             out.append(sub + "/" + n + ".j2")
-        if b >= 3:
             out.append(n + ".txt")
     return sorted(out)
 
@@ -98,18 +99,18 @@ def _mk_loader(user: typing.Optional[typing.List[str]], builtin: typing.Optional
     return l
 
 
-def resolution_single_set(bits: typing.List[int], warm: bool, zsub: bool, as_user: bool) -> bool:
+def resolution_single_set(bits: typing.List[bool], dup: int, warm: bool) -> bool:
     """
-    pre: len(bits) == NB and all(0 <= b <= 3 for b in bits)
+    pre: len(bits) == NB and -1 <= dup < NB and (dup < 0 or bits[dup])
     post: _
     """
     # one template set (user directories OR built-ins: what DSDLCodeGenerator uses): the template named after the nearest class in
     # the inheritance chain, else None; independent of earlier lookups and of same-stem files elsewhere in the listing
-    lst = _listing(bits, "zsub" if zsub else "Asub")
-    l = _mk_loader(lst, None) if as_user else _mk_loader(None, lst)
+    lst = _listing(bits, dup, "zsub" if ZSUB else "Asub")
+    l = _mk_loader(lst, None) if AS_USER else _mk_loader(None, lst)
     g = object.__new__(DSDLCodeGenerator)
     g._dsdl_template_loader = l
-    avail = {n for n, b in zip(NAMES, bits) if b >= 1}
+    avail = {n for n, b in zip(NAMES, bits) if b}
     if warm:
         l.type_to_template(W)
     exp, _ = _nearest(Q, avail)
@@ -128,28 +129,37 @@ def resolution_single_set(bits: typing.List[int], warm: bool, zsub: bool, as_use
     return all(p.stem == c.__name__ for c, p in l._type_to_template_lookup_cache.items())
 
 
-def user_template_shadows_builtin_of_same_name(ubits: typing.List[bool], bbits: typing.List[bool], ni: int) -> bool:
+def user_template_shadows_builtin_of_same_name(u: bool, b: bool, ni: int, other_u: bool, other_b: bool) -> bool:
     """
-    pre: len(ubits) == NB and len(bbits) == NB and 0 <= ni < NB
+    pre: 0 <= ni < NB
     post: _
     """
     # FIND_ALL loaders (support templates): a user template takes precedence over the built-in template of the same name; a name only
     # the built-ins have is still found; a name nobody has is reported as missing.  (Type templates use ONE set -- FIND_FIRST -- so
     # mixing a nearer built-in with a farther user template, where the statement's two rules would conflict, cannot occur there.)
     from nunavut.jinja.jinja2.exceptions import TemplateNotFound
-    user = DictLoader({n + ".j2": "USER " + n for n, b in zip(NAMES, ubits) if b})
-    builtin = DictLoader({n + ".j2": "BUILTIN " + n for n, b in zip(NAMES, bbits) if b})
+    name = NAMES[ni]
+    other = NAMES[(ni + 1) % NB]
+    ud = {}
+    bd = {}
+    if u:
+        ud[name + ".j2"] = "USER " + name
+    if b:
+        bd[name + ".j2"] = "BUILTIN " + name
+    if other_u:
+        ud[other + ".j2"] = "USER " + other
+    if other_b:
+        bd[other + ".j2"] = "BUILTIN " + other
     l = object.__new__(DSDLTemplateLoader)
     l._type_to_template_lookup_cache = {}
-    l._fsloader, l._package_loader = user, builtin
-    name = NAMES[ni]
+    l._fsloader, l._package_loader = DictLoader(ud), DictLoader(bd)
     try:
         src = l.get_source(None, name + ".j2")[0]
     except TemplateNotFound:
-        return not ubits[ni] and not bbits[ni]
-    if ubits[ni]:
+        return not u and not b
+    if u:
         return src == "USER " + name
-    return bbits[ni] and src == "BUILTIN " + name
+    return b and src == "BUILTIN " + name
 
 
 # ------------------------------------------------------------------------------------------------ instance tests
